@@ -301,7 +301,7 @@ def rule_r1(chk, model):
     t = model.methods["trim"]
     chk.saw(t.mod, t.qual)
     ok, trim_detail = _trim_by_evaluation(t.node)
-    chk.ob("C10-R1", "series.Series.trim[slice arithmetic]", ok, trim_detail, t.loc())
+    chk.ob("C10-R1", "series.Series.trim[slice arithmetic]", ok, trim_detail, t.loc(), sure=True)
     g = model.functions.get(("main", "_get_num_leading_trailing_missing_rows"))
     if g is None:
         raise AnalysisError("anchor vanished: _get_num_leading_trailing_missing_rows")
